@@ -17,17 +17,17 @@
 EXTENDS Integers, Sequences, FiniteSets, TLC
 
 Kinds == {"VI", "PI", "RVI", "PVI", "SAVI"}
-Routes == {"kwargs", "config", "yaml"}
+Routes == {"kwargs", "config", "yaml", "reuse"}   \* reuse: one configuration object edited in place between two solvers
 GammaLevels == {"neg", "zero", "mid", "one", "above", "int_zero", "int_one"}   \* int_*: passed as Python ints
 EpsLevels == {"neg", "zero", "tiny", "small", "half", "two", "twenty", "twohundred", "million", "int_one", "int_hundred"}
 TestLevels == {"span", "max_diff", "bogus"}
 IssueLevels == {"fifo", "lifo", "FIFO", "random"}
-PLevels == {"neg", "zero", "mid", "one", "above"}
+PLevels == {"neg", "zero", "tenth", "mid", "one", "above"}   \* tenth = 0.1: not representable exactly in binary
 
 GammaInUnit(g) == g \in {"zero", "mid", "one", "int_zero", "int_one"}
 GammaIsOne(g) == g \in {"one", "int_one"}
 EpsPositive(e) == e \notin {"neg", "zero"}
-PInUnit(p) == p \in {"zero", "mid", "one"}
+PInUnit(p) == p \in {"zero", "tenth", "mid", "one"}
 
 (* documented domains *)
 SolverOK(kind, c) ==
